@@ -192,8 +192,22 @@ def run(res):
     tmp = os.path.join(C.BUILD, "run", "C20-gen-%d" % os.getpid()); os.makedirs(tmp, exist_ok=True)
     with C.Lock("c20gen"):
         rc, out = C.run([C.harness_bin("C20"), "-out", tmp, "-gen", GEN], env=env, timeout=600)
+    # A translator that stops (rc != 0) or cannot classify some validator (opaque.txt: an unknown reference or call in it)
+    # is a broken tie, reported below — but it writes no Gen file then, so the last good ones stay and the correspondence
+    # still runs for every format: the specification automaton does not depend on the translator, and a disagreement of
+    # the real validator with it is a VIOLATION with the input. Only if none is found: no-failing-input-found.
+    gen_problem, opaque = None, {}
     if rc != 0:
-        C.tie_broken(res, "translator C20 (pkg/regex -> Gen/Regexes.lean)", out[-3000:]); return res.finish()
+        gen_problem = "the translator stopped; the Gen files are the last good ones\n" + out[-3000:]
+    elif os.path.exists(os.path.join(tmp, "opaque.txt")):
+        for l in open(os.path.join(tmp, "opaque.txt")):
+            if "\t" in l: opaque[l.split("\t")[0]] = l.rstrip("\n").split("\t", 1)[1]
+        gen_problem = ("validator(s) the translator cannot classify (kind \"opaque\": no theorem speaks about them; the Gen files are the last good ones):\n"
+                       + "\n".join("  %s: %s" % kv for kv in sorted(opaque.items())))
+    cov["opaque_validators"] = opaque
+    if gen_problem:
+        res.notes.append("C20 translator: " + gen_problem)
+        print("NOTE property=C20 broken tie (reported whatever the correspondence finds): translator: " + gen_problem.replace("\n", " | ")[:600])
     # --- certificates: recompute from the regenerated regexes (written only when changed) ---
     ok, out = C.lake_build(["driver_c20"])
     if not ok:
@@ -230,6 +244,8 @@ def run(res):
     if data is None:
         C.tie_broken(res, "correspondence C20/formats", err); return res.finish()
     C.decide(res, "C20", data, key, "C20/formats", describe=describe)
+    if gen_problem and not res.violations:
+        C.tie_broken(res, "translator C20 (pkg/regex, pkg/validate -> Gen/Regexes.lean)", gen_problem)
     if proof_problem and not res.violations:
         C.tie_broken(res, "proof Gozod.Proofs.C20", proof_problem)
     exp, got = fingerprints()
